@@ -400,8 +400,11 @@ def judge_pn53x(sx, sc, kind, out, data, tag):
                       if (i, c) != (idx, code) and c != 'irq'])
     if kind in INITIATOR:
         if out != "TimeoutError":
-            # chip status 01h: "Time out, the target has not answered"
-            sx.check(sx.neg(sx.all([prep_ok, st == 0x01])),
+            # chip status 01h: "Time out, the target has not answered"; the
+            # status byte of InDataExchange carries the error code in bits
+            # 5..0 next to the NAD (bit 7) and MI (bit 6) flags
+            tmo = ((st & 0x3F) == 0x01) if code == 0x40 else (st == 0x01)
+            sx.check(sx.neg(sx.all([prep_ok, tmo])),
                      "timeout-status-not-TimeoutError:" + tag)
     else:
         if out != "BrokenLinkError":
